@@ -9,13 +9,14 @@ from harness.runner import BCheck
 from scenario import phasing as PH, vcf as V
 
 LEVEL = "exploration"
-LEVEL_TEXT = ("Bounded stand-in: the real run_stats on generated VCFs (phased/unphased/homozygous/missing/partial calls, interleaved and nested phase sets, several "
+LEVEL_TEXT = ("Deductive part (vcgen/z3, all inputs): PhasedBlock.add keeps leftmost/rightmost = min/max of the added variants and span() = rightmost - leftmost (contracts/stats_py.py). "
+              "Bounded stand-in: the real run_stats on generated VCFs (phased/unphased/homozygous/missing/partial calls, interleaved and nested phase sets, several "
               "chromosomes and samples, PS and HP, ploidy 2 and 3, --only-snvs, --chromosome selections in any order, --sample) against an independent counter over the "
               "file text: variants, heterozygous (SNVs), phased, unphased, singletons, blocks, the two sum identities, block list with true extents, non-overlapping "
               "block lengths bounded by the covered span, ALL row = sum of rows. Deductive contracts for get_phase_blocks/get_detailed_stats are planned.")
 LEVEL_NOTE = "Seeded sampling. 'Variants' are the records the reader keeps: biallelic, first eligible record at a position, SNV only under --only-snvs (stated in the rule)."
 TECHNIQUE = "bounded runtime contract on run_stats (TSV + block list) against an independent counter over generated VCF text"
-D_MODULES = []
+D_MODULES = ["contracts.stats_py"]
 EXPLANATION = LEVEL_TEXT
 TRUSTED_BASE = ["scenario/vcf.py parser and scenario/phasing.py decoder"]
 ASSUMPTIONS = ["multi-ALT records and repeated positions are skipped by the reader by design and are not counted as variants"]
